@@ -52,4 +52,31 @@ theorem dropSub_spec (e : Entry) (rs : Nat) (sub : SubRef) :
 theorem release_count (count : Int) (pending : Bool) : (removeCountPure count 1 pending).1 = count - 1 := by
   unfold removeCountPure; dsimp only; split <;> rfl
 
+
+theorem mem_filter_ne_false (l : List SubRef) (sub : SubRef) : (l.filter (· != sub)).contains sub = false := by
+  induction l with
+  | nil => rfl
+  | cons x xs ih =>
+    by_cases h : x = sub
+    · subst h; simp [List.filter_cons, ih]
+    · have hb : (x != sub) = true := by simpa using h
+      have hc : (sub == x) = false := by simpa using (fun e : sub = x => h e.symm)
+      simp only [List.filter_cons, hb, if_true, List.contains_cons, hc, Bool.false_or, ih]
+
+/-- **Every user releases at most once**: once a subscriber has been released from a resource, a
+    second release of the same subscriber (a delete event or error answer it had not processed yet,
+    followed by its own dispose; the repaired `ResourceSubscription.Unsubscribe`) finds it gone and
+    gives nothing back. -/
+theorem release_twice_is_once (e : Entry) (rs : Nat) (sub : SubRef) :
+    (e.dropSub rs sub).release rs sub = none := by
+  unfold Entry.release
+  have h := (dropSub_spec e rs sub).2.2.2.2.2.2.1
+  rw [h, mem_filter_ne_false]
+  rfl
+
+theorem release_some_iff (e : Entry) (rs : Nat) (sub : SubRef) :
+    (e.release rs sub).isSome = (tget e.ress rs).subs.contains sub := by
+  unfold Entry.release
+  cases h : (tget e.ress rs).subs.contains sub <;> simp
+
 end Resgate.Gw
